@@ -808,6 +808,11 @@ func (er *execRun) canonErr(e map[string]interface{}, execPhase bool) sx.S {
 			kind = "coercein"
 		}
 	}
+	if (kind == "badenum" || kind == "coerceout") && (!execPhase || len(path) == 0) {
+		// no response path: the failure belongs to no selection, it is the value of a variable that its
+		// declared type refuses (for an enum: not a member)
+		kind = "coercein"
+	}
 	return sx.L("e", path, loc, kind)
 }
 
